@@ -14,13 +14,13 @@ fn gen_cases(prop: &str, rng: &mut Rng, tier: &str, outdir: &str) -> Vec<Line> {
   let mut feats = gen::Features::new();
   // (profile, quick count, thorough count)
   let plan: Vec<(gen::Profile, usize, usize)> = match prop {
-    "C08" => vec![(gen::P_SUPPLY, 90, 1800), (gen::P_ALLOC, 25, 500), (gen::P_MINT, 20, 400), (gen::P_ETCH, 15, 300)],
-    "C09" => vec![(gen::P_ALLOC, 140, 3000), (gen::P_SUPPLY, 30, 600)],
+    "C08" => vec![(gen::P_SUPPLY, 80, 450), (gen::P_ALLOC, 25, 125), (gen::P_MINT, 20, 100), (gen::P_ETCH, 15, 75)],
+    "C09" => vec![(gen::P_ALLOC, 120, 700), (gen::P_SUPPLY, 25, 150)],
     "C10" => {
       mintable::gen(rng, tier, &mut v);
-      vec![(gen::P_MINT, 60, 1500), (gen::P_SUPPLY, 10, 300)]
+      vec![(gen::P_MINT, 60, 300), (gen::P_SUPPLY, 10, 50)]
     }
-    "C11" => vec![(gen::P_ETCH, 110, 2400), (gen::P_SUPPLY, 20, 400)],
+    "C11" => vec![(gen::P_ETCH, 85, 550), (gen::P_SUPPLY, 15, 100)],
     _ => vec![],
   };
   for (p, q, t) in plan {
